@@ -27,7 +27,7 @@ SPEC = {
                  "property. No axioms (Print Assumptions: closed under the global context)."),
         "design_ref": "DESIGN.md section 6 C19"},
     "streams": ["savefaults"],
-    "witnesses": [],
+    "witnesses": ["F58"],
     "rule": ("deterministic matrix, identical on every run: for each of the 5 formats, a schema with plain fields + xor/aes "
              "secrets + a nested sub-configuration + a list of two configurations + an untyped field + a virtual field, "
              "destination holding a previous valid document, and ONE case per injectable fault point: to_basic of each "
